@@ -171,7 +171,7 @@ Lemma file_go_canon_eq : forall l p sn, file_go_canon l sn = canon_lines (fun n 
 Proof.
   unfold file_go_canon. induction l as [|[g n] t IH]; intros p sn; [reflexivity|]. cbn [canon_lines]. rewrite (IH n).
   destruct (is_cmt n); cbn [negb orb andb].
-  - rewrite orb_false_r. destruct (is_line_cmt (craw n)); reflexivity.
+  - rewrite orb_false_r. reflexivity.
   - rewrite orb_true_r. reflexivity.
 Qed.
 Definition file_go_ok (l : list (str * cnode)) (seen : bool) : bool :=
@@ -187,7 +187,7 @@ Lemma file_go_ok_eq : forall l p sn, file_go_ok l sn = lines_ok (fun n => canoni
 Proof.
   unfold file_go_ok. induction l as [|[g n] t IH]; intros p sn; [reflexivity|]. cbn [lines_ok]. rewrite (IH n).
   destruct (is_cmt n); cbn [negb orb andb].
-  - rewrite orb_false_r. destruct (is_line_cmt (craw n)); reflexivity.
+  - rewrite orb_false_r. reflexivity.
   - rewrite orb_true_r. reflexivity.
 Qed.
 
